@@ -520,6 +520,96 @@ def oracle_inverse(spec):
     return o
 
 
+# ------------------------------------------------------------------ inverse with time-signature columns
+TS_CHOICES = [(3, 4), (6, 8), (2, 2), (4, 4), (2, 4), (4, 8), (3, 2), (6, 4), (9, 8), (5, 4)]
+
+
+@st.composite
+def strat_inverse_ts(draw, tier):
+    d = draw(st.sampled_from([2, 4, 8, 12]))
+    nseg = draw(st.integers(1, 3))
+    segments = []
+    prev = None
+    same_length = draw(st.sampled_from([None, None, [(3, 4), (6, 8)], [(2, 2), (4, 4)], [(6, 8), (3, 4)], [(4, 4), (2, 2)], [(2, 4), (4, 8)], [(3, 2), (6, 4)]]))
+    plan = list(same_length) if same_length else []
+    while len(plan) < nseg:
+        plan.append(draw(st.sampled_from(TS_CHOICES)))
+    for ts in plan:
+        if ts == prev:
+            continue
+        prev = ts
+        segments.append([ts[0], ts[1], draw(st.integers(1, 2))])
+    bars = []
+    for (b, bt, nb) in segments:
+        L = b * 4 * d // bt
+        for _ in range(nb):
+            k = draw(st.integers(1, 3))
+            notes = []
+            for _ in range(k):
+                on = draw(st.integers(0, L - 1))
+                du = draw(st.integers(1, L - on))
+                notes.append([on, du, draw(st.integers(40, 90))])
+            # every bar starts with a note that fills it, so that a signature change is carried by
+            # a row and no bar is shorter than its signature says (a short bar would be a pickup)
+            notes[0][0] = 0
+            notes[0][1] = L
+            bars.append(notes)
+    return {"divs": d, "segments": segments, "bars": bars, "sanitize": draw(st.booleans())}
+
+
+def oracle_inverse_ts(spec):
+    o = Outcome()
+    d = spec["divs"]
+    rows = []  # onset_div, dur_div, pitch, beats, beat_type, expected onset_beat
+    t = 0
+    beat0 = Fraction(0)
+    bi = 0
+    for (b, bt, nb) in spec["segments"]:
+        L = b * 4 * d // bt
+        for _ in range(nb):
+            for (on, du, p) in spec["bars"][bi]:
+                rows.append((t + on, du, p, b, bt, beat0 + Fraction(on * bt, 4 * d)))
+            bi += 1
+            t += L
+            beat0 += b
+    # distinct (onset, pitch) so that rows can be matched
+    seen, uniq = set(), []
+    for r in rows:
+        if (r[0], r[2]) in seen:
+            continue
+        seen.add((r[0], r[2]))
+        uniq.append(r)
+    rows = uniq
+    segs = spec["segments"]
+    same_bar_length = any(Fraction(a[0] * 4, a[1]) == Fraction(b[0] * 4, b[1]) for a, b in zip(segs, segs[1:]))
+    o.nontrivial = len(segs) >= 2
+    o.cls("signature-change", len(segs) >= 2)
+    o.cls("signature-change-keeping-bar-length", same_bar_length)
+    na = np.array([(r[0], r[1], r[2], 1, r[3], r[4]) for r in rows],
+                  dtype=[("onset_div", "i4"), ("duration_div", "i4"), ("pitch", "i4"), ("voice", "i4"), ("ts_beats", "i4"), ("ts_beat_type", "i4")])
+    sc = call(note_array_to_score, na, divs=d, sanitize=spec["sanitize"], assign_note_ids=True)
+    part = sc.parts[0]
+    out = call(part.note_array, include_time_signature=True)
+    got = {}
+    for r in out:
+        got[(int(r["onset_div"]), int(r["pitch"]))] = r
+    if sorted(got) != sorted((r[0], r[2]) for r in rows):
+        o.add("inverse-ts-notes-differ", n_got=len(got), n_expected=len(rows))
+        return o
+    for r in rows:
+        g = got[(r[0], r[2])]
+        if int(g["duration_div"]) != r[1]:
+            o.add("inverse-ts-duration-differs", onset=r[0], got=int(g["duration_div"]), expected=r[1])
+            break
+        if (int(g["ts_beats"]), int(g["ts_beat_type"])) != (r[3], r[4]):
+            o.add("inverse-ts-signature-at-onset-differs", onset=r[0], got=[int(g["ts_beats"]), int(g["ts_beat_type"])], expected=[r[3], r[4]], segments=segs)
+            break
+        if not f32close(g["onset_beat"], r[5]):
+            o.add("inverse-ts-onset-beat-differs", onset=r[0], got=float(g["onset_beat"]), expected=float(r[5]), segments=segs)
+            break
+    return o
+
+
 def known_divs_from_beats(spec, d):
     """create_divs_from_beats derives divisions from the durations only."""
     if d.kind not in ("inverse-onset-duration-pitch-differ",):
@@ -565,5 +655,13 @@ SUBCHECKS = [
         budget={"quick": 40, "thorough": 1500},
         rule="note arrays with beat, division or both time columns on rational grids (denominators <= 16), with/without signature and voice columns, sanitize on/off; score built and its note array compared as a multiset of (onset, duration, pitch) in quarters; non-trivial = >=2 rows",
         known={"divs-from-beats-ignores-onset-grid": known_divs_from_beats},
+    ),
+    SubCheck(
+        "note_array_to_score_signatures",
+        oracle_inverse_ts,
+        strategy=strat_inverse_ts,
+        budget={"quick": 100, "thorough": 2500},
+        rule="note arrays in divisions with ts_beats/ts_beat_type columns over 1-3 signature segments (incl. changes that keep the bar length, e.g. 3/4 -> 6/8, 2/2 -> 4/4); rebuilt score's notes, signature in force at each onset and onset in beats compared; non-trivial = >= 2 segments",
+        floors={"signature-change-keeping-bar-length": 0.05},
     ),
 ]
